@@ -11,7 +11,7 @@ import subprocess
 import sys
 
 HERE = os.path.dirname(os.path.dirname(os.path.abspath(__file__)))
-REPO = "/repo"
+REPO = os.environ.get("JCV_REPO", "/repo")
 
 # (id, property, file, old, new, expectation, text that must appear in the output when firing)
 MUTANTS = []
@@ -606,6 +606,10 @@ PATCH("c01-benign-strict-helper", "C01", "tokener-strict-helper-benign.diff", ex
 PATCH("c16-benign-strict-helper", "C16", "tokener-strict-helper-benign.diff", expect="silent")
 PATCH("c03-benign-strict-helper", "C03", "tokener-strict-helper-benign.diff", expect="silent")
 PATCH("c04-benign-strict-helper", "C04", "tokener-strict-helper-benign.diff", expect="silent")
+PATCH("c08-benign-constkey-guarded-free", "C08", "c08-constkey-guarded-free-benign.diff", expect="silent")
+PATCH("c05-benign-constkey-guarded-free", "C05", "c08-constkey-guarded-free-benign.diff", expect="silent")
+PATCH("c09-benign-copy-setserializer", "C09", "c09-copy-setserializer-benign.diff", expect="silent")
+PATCH("c02-benign-copy-setserializer", "C02", "c09-copy-setserializer-benign.diff", expect="silent")
 M("c11-raw-len-positive-test", "C11", "json_object.c",
   "\tcase json_type_string: return (JC_STRING_C(jso)->len != 0);", "\tcase json_type_string: return (JC_STRING_C(jso)->len > 0);", needle="C11.R7")
 M("c11-benign-len-zero-test", "C11", "json_object.c",
